@@ -181,6 +181,15 @@ def gen_cfg(rng, world, fault_rate=0.35):
             faults.setdefault(u, {"fail_first": 0, "exc": "OSError", "kind": "net_error", "cut": 0, "silent": False})
             faults[u]["final_url"] = rng.choice([u + "/", u.replace("http://", "https://") if u.startswith("http://") else u + "?r=1",
                                                  "http://mirror.test/moved/" + u.rsplit("/", 1)[-1]])
+        if rng.random() < 0.2:
+            # what the server says ABOUT the document (the resolver's own cache_remote decides, not HTTP caching headers)
+            faults.setdefault(u, {"fail_first": 0, "exc": "OSError", "kind": "net_error", "cut": 0, "silent": False})
+            faults[u]["headers"] = rng.choice([
+                {"Content-Type": "application/json", "Cache-Control": "private, no-store, max-age=0"},
+                {"Content-Type": "application/schema+json; charset=utf-8", "Cache-Control": "no-cache", "Pragma": "no-cache",
+                 "Expires": "0"},
+                {"Content-Type": "text/plain; charset=iso-8859-1", "Vary": "*", "ETag": "\"v1\""},
+                {"content-type": "application/json", "cache-control": "NO-STORE", "Set-Cookie": "v=1"}])
         if rng.random() < 0.05:
             # a handler that hands back the raw JSON TEXT instead of a parsed document (a frequent mistake): the
             # library stores and uses what it is given - consistently, whatever the validator did before
@@ -206,7 +215,7 @@ def _splittable(url):
 
 
 class Actor(object):
-    def __init__(self, world, cfg, router, calls=None, shared_from=None, store_from=None, defer=False):
+    def __init__(self, world, cfg, router, calls=None, shared_from=None, store_from=None, defer=False, class_from=None):
         from jsonschema import RefResolver
         self.world = world
         self.cfg = cfg
@@ -224,7 +233,12 @@ class Actor(object):
         self.transport = SimTransport(world["docs"], plan=cfg.get("faults"), forbidden=forbidden)
         if calls:
             self.transport.set_calls(calls)
-        self.cls = build_class(draft, world.get("custom"), self.collab)
+        if class_from is not None:
+            self.cls = class_from.cls          # several validator objects of ONE (derived) class, as everybody has
+        elif shared_from is not None and cfg.get("share_class"):
+            self.cls = shared_from.cls
+        else:
+            self.cls = build_class(draft, world.get("custom"), self.collab)
         if shared_from is not None and cfg.get("share_format_checker"):
             self.fc = shared_from.fc           # one FormatChecker object may serve several validators
         else:
@@ -716,6 +730,9 @@ def do_op(actor, op, instances):
                           raise ConsumerDied()
                       n += 1
               out = {"k": "value", "v": n}
+          elif kind == "check_schema":
+              actor.cls.check_schema(actor.root)
+              out = {"k": "none"}
           elif kind == "rebuild":
               out = {"k": "value", "v": bool(actor.rebuild())}
               v, r = actor.validator, actor.resolver
